@@ -268,6 +268,7 @@ def run_sequence(it):
                                                                dict(level="sequence", method=method, first=dict(f=f1, d=d1, cfg=cfg, efth=E[(g1 + ci) % len(E)]),
                                                                     efth=S, f=f, d=d, cfg=c)))
     res["parts"]["call-sequences"] = res["evals"]
+    res["samples"].append(dict(part="call-sequence", first_grid=dict(f=grids[0][0], d=grids[0][1]), second_grid=dict(f=grids[3][0], d=grids[3][1]), cfg=cfgs[0], efth=E[0]))
     return res
 
 
